@@ -18,6 +18,8 @@ CANARIES = {
                                    "            candidates.update(self._exceptions[pos].get(form, set()))\n"
                                    "            if self._exceptions[pos].get(form):\n"
                                    "                return candidates\n"),
+    'form-hash-with-script': ('wn._core', "    def __hash__(self):\n        return str.__hash__(self)\n\n    def pronunciations(self)",
+                              "    def __hash__(self):\n        return str.__hash__(self + (self.script or ''))\n\n    def pronunciations(self)"),
     'exceptions-overwrite': ('wn.morphy', "pos_exc[other].add(lemma)", "pos_exc[other] = {lemma}"),
     'dup-union': ('wn._core', "        if result not in seen:\n", "        if True:\n"),
 }
@@ -287,6 +289,37 @@ def h_init_irregular(form: str, l1: str, l2: str, same: bool) -> bool:
     return rt.verdict(_check_init(m, form, qpos, words))
 
 
+HASH_POOL = ['a', 'b', 'ab', '']
+
+
+def h_form_hash(ks: int, kt: int, script: bool, k: int) -> bool:
+    """
+    pre: 0 <= ks < 4 and 0 <= kt < 4 and 0 <= k < 4
+    post: _
+    """
+    s, t = HASH_POOL[0], HASH_POOL[0]
+    for n in range(4):
+        if ks == n:
+            s = HASH_POOL[n]
+        if kt == n:
+            t = HASH_POOL[n]
+    # Morphy keeps wn.Form objects (str subclass with a script) in sets and as dictionary keys
+    # and looks plain query strings up in them: equal objects must hash equally.  (The sets of
+    # the lemmatizer itself are equality-based in this model, so this is stated separately.)
+    from wn import Form
+    f = Form(s, script='Latn' if script else None)
+    others = [t, Form(t), Form(t, script='Latn'), Form(t, script='Cyrl')]
+    o = others[0]
+    for n in range(4):
+        if k == n:
+            o = others[n]
+    ok = True
+    if f == o:
+        ho = o.__hash__() if isinstance(o, Form) else str.__hash__(o)
+        ok = f.__hash__() == ho and (o == f)
+    return rt.verdict(ok)
+
+
 def h_init_allpos(form: str, l1: str, f1: str) -> bool:
     """
     pre: len(form) <= MAXQA
@@ -408,6 +441,13 @@ OBLIGATIONS = [
        symbolic='query string (2-3 characters), which is also the additional form of word 1; lemma of '
                 'word 1 (1 character) and of word 2 (1-2 characters); whether word 2 has the query pos',
        bounds='a listed irregular form that may also be a regular inflection of another lemma'),
+    Ob('form-hash-eq', 'h_form_hash', quick=dict(timeout=120), thorough=dict(timeout=300),
+       canary='form-hash-with-script', canary_part=0,
+       functions=['wn.Form.__eq__', 'wn.Form.__hash__'],
+       symbolic='two strings (by index from ' + repr(HASH_POOL) + ': hashing a symbolic string only '
+                'realises it), whether the form has a script, what it is compared '
+                'with (plain str, Form without script, Form with the same / another script)',
+       bounds='a == b implies hash(a) == hash(b) and b == a'),
     Ob('initialized-2words', 'h_init', parts=len(POS_PARTS) - 1, tiers=('thorough',),
        quick=dict(timeout=200), thorough=dict(timeout=1500),
        canary='unfiltered-candidates', canary_part=0,
